@@ -47,7 +47,7 @@ REQUIRED = ['halfnormal_moment_stats_nuts', 'halfnormal_moment_stats_metropolis'
             'met_replay_compared', 'met_trace_ok', 'nuts_chains', 'states_reevaluated_metropolis',
             'states_reevaluated_nuts', 'determinism_pairs_metropolis', 'determinism_pairs_nuts',
             'moment_stats_metropolis', 'moment_stats_nuts', 'moment_pooled_cases', 'target_evals_nan', 'target_evals_neginf',
-            'nuts_stepsize_searched', 'nuts_stepsize_given', 'nuts_iter_eq_adapt_plus_1', 'nuts_moments_without_adaptation']
+            'nuts_stepsize_searched', 'nuts_stepsize_given', 'nuts_iter_eq_adapt_plus_1', 'nuts_moments_without_adaptation', 'start_dtype_float32', 'start_dtype_int64', 'start_dtype_int32']
 
 KINDS = ['met', 'met', 'met', 'nuts', 'met', 'metmom', 'met', 'nuts', 'met', 'nutsmom', 'nuts', 'met']
 FAMILIES = ['gauss', 'mix', 'box', 'half', 'flatbox', 'nanball', 'nanhalf']
@@ -239,10 +239,10 @@ def call_kernel(kind, tgt, kw, record=False):
     try:
         try:
             if kind == 'met':
-                out = mc.metropolis(kw['n'], np.array(kw['x0'], dtype=float), target, np.array(kw['sigma'], dtype=float),
+                out = mc.metropolis(kw['n'], np.array(kw['x0'], dtype=kw.get('x0_dtype', 'float64')), target, np.array(kw['sigma'], dtype=float),
                                     warmup=kw['warmup'], seed=kw['seed'])
             else:
-                out = mc.nuts(kw['n'], np.array(kw['x0'], dtype=float), target, tgt.grad, n_adapt=kw['n_adapt'],
+                out = mc.nuts(kw['n'], np.array(kw['x0'], dtype=kw.get('x0_dtype', 'float64')), target, tgt.grad, n_adapt=kw['n_adapt'],
                               target_prob=kw['target_prob'], max_depth=kw['max_depth'], seed=kw['seed'],
                               stepsize=kw['stepsize'])
         except SystemExit as e:                      # documented refusal: step size outside [0, 1e7]
@@ -450,6 +450,21 @@ def _tspec(rng, family=None, moments=False):
     return spec
 
 
+def _start_dtype(rng, tgt, x0):
+    """A start point is an input: users pass integer arrays (np.array([0, 1])) and float32 arrays as well as float64.
+    Returns (x0 exactly representable in the dtype, dtype name); integer starts only where the rounded point is valid."""
+    r = rng.random()
+    if r < 0.12:
+        xi = np.round(x0)
+        if math.isfinite(float(tgt.raw(xi))) and float(tgt.raw(xi)) > -1e6:
+            return xi, str(rng.choice(['int64', 'int32']))
+    elif r < 0.24:
+        xf = np.asarray(x0, dtype=np.float32).astype(float)
+        if math.isfinite(float(tgt.raw(xf))):
+            return xf, 'float32'
+    return x0, 'float64'
+
+
 def gen_met(rng, moments):
     spec = _tspec(rng, 'gauss' if moments else None, moments)
     tgt = Target(spec)
@@ -474,8 +489,10 @@ def gen_met(rng, moments):
         n = int(round(math.exp(rng.uniform(0, math.log(2000)))))
         warmup = int(rng.choice([0, 0, 1, 2, int(rng.integers(0, n + 1)), n, min(2 * n, 2000), int(rng.integers(0, 300))]))
         x0 = tgt.start(rng, float(rng.choice([0.1, 1.0, 2.5])))
+    x0, x0_dtype = _start_dtype(rng, tgt, x0)
     return {'kind': 'metmom' if moments else 'met', 'target': spec,
-            'kw': {'n': n, 'warmup': warmup, 'seed': _seed(rng), 'x0': [float(v) for v in x0], 'sigma': [float(v) for v in sigma]}}
+            'kw': {'n': n, 'warmup': warmup, 'seed': _seed(rng), 'x0': [float(v) for v in x0], 'x0_dtype': x0_dtype,
+                   'sigma': [float(v) for v in sigma]}}
 
 
 def gen_nuts(rng, moments):
@@ -506,9 +523,10 @@ def gen_nuts(rng, moments):
         max_depth = int(rng.choice([0, 1, 2, 3, 5, 5, 7]))
         stepsize = None if rng.random() < 0.5 else float(np.min(tgt.sd) * math.exp(rng.uniform(math.log(0.02), math.log(3.0))))
         target_prob = float(rng.choice([0.6, 0.6, 0.45, 0.8, 0.9]))
+    x0, x0_dtype = _start_dtype(rng, tgt, x0)
     return {'kind': 'nutsmom' if moments else 'nuts', 'target': spec,
             'kw': {'n': n, 'n_adapt': n_adapt, 'max_depth': max_depth, 'stepsize': stepsize, 'target_prob': target_prob,
-                   'seed': _seed(rng), 'x0': [float(v) for v in x0]}}
+                   'seed': _seed(rng), 'x0': [float(v) for v in x0], 'x0_dtype': x0_dtype}}
 
 
 def gen_nutspool(rng):
@@ -706,5 +724,6 @@ def run_case(ctx, case):
             ctx.nontrivial(bool(moved.any()) and (bool((~moved).any()) or nonfinite))
 
     check_common(ctx, kind, tgt, kw, chain, kname)
+    ctx.event('start_dtype_' + kw.get('x0_dtype', 'float64'))
     if case['kind'] in ('metmom', 'nutsmom'):
         check_moments(ctx, kind, tgt, kw, chain, kname)
